@@ -103,6 +103,7 @@ template <int DIM> struct RunCost {
   std::vector<Sample> *rec = nullptr;  // optional recorder (C08); not thread safe, used serially only
   // single-component gradient perturbation for C19: which output (0 gp,1 gv,2 ga,3 gj,4 gs,5 gt), component, amount
   int pert_out = -1, pert_comp = 0; double pert = 0;
+  int inf_seg = -1;   // a barrier that is infeasible on one segment: the value is +inf at every sample of that segment, the gradients stay finite
   static RunCost mode(int m) {
     RunCost r;
     switch (m) {
@@ -127,6 +128,7 @@ template <int DIM> struct RunCost {
     gp = m * (ap * p + apv * v + lin * gl); gv = m * (av * v + apv * p + lin * hl); ga = m * aa * a; gj = m * aj * j; gs = m * as * s;
     gt = W * base * dph + 2 * bt * tg;
     if (pert_out >= 0) { switch (pert_out) { case 0: gp(pert_comp) += pert; break; case 1: gv(pert_comp) += pert; break; case 2: ga(pert_comp) += pert; break; case 3: gj(pert_comp) += pert; break; case 4: gs(pert_comp) += pert; break; default: gt += pert; } }
+    if (i == inf_seg) return std::numeric_limits<double>::infinity();
     return m * base + bt * tg * tg;
   }
 };
